@@ -37,7 +37,7 @@ m = {
     "hooks": {
         "guard": "vibesql_verif",
         "enable": "RUSTFLAGS=\"--cfg vibesql_verif\" (set by bin/check for every harness build; build output goes to /verif/.cache/target, never into /repo)",
-        "baseline_off_cmd": "cd /repo && RUSTC_WRAPPER= cargo nextest run --workspace --no-fail-fast --tool-config-file pb:/w/lib/nextest.toml --profile pb --test-threads 8 --offline",
+        "baseline_off_cmd": "cd /repo && RUSTC_WRAPPER= cargo test --workspace --no-fail-fast --offline",
         "source_commits": HOOK_COMMITS,
         "add_only": True,
     },
